@@ -30,7 +30,7 @@ func (m *Model) findExpectLikes(parFns []*ssa.Function) map[*ssa.Function]*expec
 	}
 	out := map[*ssa.Function]*expectLike{}
 	m.expectLikes = out
-	newErr := m.Method("parser", "Parser", "newError")
+	newErr := m.parserNewError()
 	nextTok := m.Method("parser", "Parser", "nextToken")
 	pm := m.extractPratt()
 	var toks []int64
